@@ -71,12 +71,16 @@ def make_source(src, n_or_data):
       s = io.SequenceDataSource.from_sequences([data[a:b] for a, b in zip(cuts, cuts[1:])])
   elif kind == 'iterable':
     s = io.ShardedIterable(data)
+  elif kind == 'iterable_dict':
+    s = io.ShardedIterable({v: 100 + v for v in data})      # a mapping iterates its keys (and is indexed by key, not position)
+  elif kind == 'iterable_tuple':
+    s = io.ShardedIterable(tuple(data))
   else:
     raise ValueError(kind)
   for sh in src.get('shards', []):
     i, k = sh[0], sh[1]
     off = sh[2] if len(sh) > 2 else 0
-    if off and kind != 'iterable':
+    if off and not kind.startswith('iterable'):
       s = s.shard(i, k, min(off, len(s.shard(i, k))))     # a shard that was itself restored at an offset
     else:
       s = s.shard(i, k)
@@ -231,8 +235,9 @@ def _ops(draw, maxops):
   return draw(st.lists(op, min_size=2, max_size=maxops)) + [['drain']]
 
 
-def _source(draw, n, allow_iterable=True):
-  kind = draw(st.sampled_from(['seq', 'multi'] + (['iterable'] if allow_iterable else [])))
+def _source(draw, n, allow_iterable=True, hashable=False):
+  kind = draw(st.sampled_from(['seq', 'multi'] + (['iterable', 'iterable_tuple'] if allow_iterable else []) + (
+      ['iterable_dict'] if allow_iterable and hashable else [])))
   src = {'kind': kind}
   if kind == 'multi':
     src['cuts'] = sorted(draw(st.lists(st.integers(0, n), max_size=3)))
@@ -243,7 +248,7 @@ def _source(draw, n, allow_iterable=True):
     shards.append([draw(st.integers(0, k - 1)), k, draw(st.sampled_from([0, 0, 1, 2]))])
   if shards:
     src['shards'] = shards
-  if kind != 'iterable' and n and draw(st.integers(0, 3)) == 0:
+  if not kind.startswith('iterable') and n and draw(st.integers(0, 3)) == 0:
     src['bad'] = sorted(set(draw(st.lists(st.integers(0, n - 1), min_size=1, max_size=3))))
   return src
 
@@ -254,7 +259,7 @@ def strat_sources(tier):
   @st.composite
   def s(draw):
     n = draw(st.integers(0, 14))
-    return {'source': _source(draw, n), 'data': list(range(n)), 'ops': _ops(draw, maxops)}
+    return {'source': _source(draw, n, hashable=True), 'data': list(range(n)), 'ops': _ops(draw, maxops)}
   return s()
 
 
